@@ -105,6 +105,42 @@ def body_eigh(S, spec):
             S.equal(f"eigh:wd[{i}]-real", zt.Z(zt.parts(v)[1]), 0)
 
 
+def body_eigh_offdiag(S, spec):
+    """Hermitian charge-zero matrix whose legs have the same direction: sectors (c, -c); dense Hermitian by construction"""
+    stubs.install()
+    x = build(S, spec["a"])
+    sym = spec["a"]["sym"]
+    # make the dense form Hermitian: block(-c, c) := block(c, -c)^H, diagonal sectors (c == -c) symmetrised
+    for s_ in list(x.blocks):
+        t = (s_[1], s_[0])
+        if s_ == t:
+            x.blocks[s_] = x.blocks[s_] + np.conj(x.blocks[s_]).T
+        elif t in x.blocks and repr(s_) < repr(t):
+            x.blocks[t] = np.conj(x.blocks[s_]).T
+    try:
+        el, ev = sr.linalg.eigh(x)
+    except zt.Abort:
+        raise
+    except Exception:
+        S.note("raised:eigh-offdiag")
+        return
+    Dx, Lx = orc.dense_of(x, dtype=S.dtype())
+    Dw, Lw = orc.dense_of(ev, dtype=S.dtype())
+    stored_cols = {sec[1] for sec in x.blocks}
+    cols = [p for c, st, sz in Lx[1] for p in range(st, st + sz) if c in stored_cols]
+    rows = [p for c, st, sz in Lx[0] for p in range(st, st + sz) if c in {sec[0] for sec in x.blocks}]
+    wd = []
+    for c, st, sz in Lx[1]:
+        if c in stored_cols:
+            S.require("offdiag:eigh:key", c in el.blocks and len(el.blocks[c]) == sz, f"eigenvalues for charge {c!r} missing or mis-sized")
+            wd.extend(list(el.blocks[c]))
+    if not cols or len(rows) != len(cols):
+        return
+    W = Dw[np.ix_(rows, cols)]
+    X = Dx[np.ix_(rows, rows)]
+    S.equal_arrays("offdiag:eigh:dense(x).Wd=Wd.diag(wd)", X.dot(W), W * np.asarray(wd, dtype=S.dtype()).reshape((1, -1)))
+
+
 def body_norm(S, spec):
     x = build(S, spec["a"])
     D, L = orc.dense_of(x, dtype=S.dtype())
@@ -138,7 +174,7 @@ def body_solve(S, spec):
     S.equal_arrays("solve:dense(a).dense(x)=dense(b)", Da.dot(Dx), Db)
 
 
-BODIES = {f.__name__: f for f in (body_svd, body_eigh, body_norm, body_solve)}
+BODIES = {f.__name__: f for f in (body_svd, body_eigh, body_norm, body_solve, body_eigh_offdiag)}
 
 
 def _run(case):
@@ -175,6 +211,17 @@ def build_family(tier, seed):
                     eg.append(dict(sym=sym, generic=generic, fermionic=False, indices=ixs, charge=q, present=tuple(p), phases=(), oddpos=None, name="a"))
         groups[f"eigh/{nm}"] = ([dict(body="body_eigh", spec=dict(a=a), sample=(i % 40 == 0), seed=seed + i) for i, a in enumerate(eg)], False)
         groups[f"eigh-complex/{nm}"] = ([dict(body="body_eigh", spec=dict(a=a), complex=True, seed=seed + i) for i, a in enumerate(eg[::2])], False)
+        if sym in ("U1", "U1U1", "Z4"):
+            od = []
+            cands = {"U1": [-1, 1, 0], "Z4": [1, 3, 0], "U1U1": [(0, 1), (0, -1), (0, 0)]}[sym]
+            for sz in (1, 2):
+                cmv = tuple(sorted((c, sz) for c in cands))
+                for d in (False, True):
+                    ixs = ((cmv, d), (cmv, d))
+                    q = gs.identity(sym)
+                    secs = fam.sectors_of(sym, ixs, q)
+                    od.append(dict(sym=sym, generic=generic, fermionic=False, indices=ixs, charge=q, present=tuple(secs), phases=(), oddpos=None, name="a"))
+            groups[f"eigh-same-direction-legs/{nm}"] = ([dict(body="body_eigh_offdiag", spec=dict(a=a), seed=seed + i) for i, a in enumerate(od)], False)
         sv = []
         sq_tabs = [((uni[0], 1), (uni[1], 1)), ((uni[0], 2), (uni[1], 2)), ((uni[0], 1), (uni[1], 2)), ((uni[0], 1),), ((uni[1], 2),)]
         for cmv in sq_tabs:
@@ -198,6 +245,12 @@ def build_family(tier, seed):
     return groups
 
 
+def classify(v):
+    if str(v.get("name", "")).startswith("offdiag:") or str(v.get("group", "")).startswith("eigh-same-direction-legs"):
+        return {"defect": "eigh-off-diagonal-sectors"}
+    return {}
+
+
 def run(tier, seed, only=None):
     rep = Report(PID, tier, seed)
     stubs.install()
@@ -219,4 +272,4 @@ def run(tier, seed, only=None):
     rep.outside = ["blocks larger than 2x2", "rounding", "fermionic eigenvalues / solutions (sign-gauge dependent)"]
     groups = build_family(tier, seed)
     run_groups(rep, groups, _run, only)
-    return rep.finish()
+    return rep.finish(classify)
